@@ -307,8 +307,14 @@ pub fn lib_forward(net: &Network, x: &Tensor) -> Result<LibRun, String> {
 }
 
 /// build the network and install the parameters; Err(panic message) if the builder rejects it
+thread_local! {
+    /// when set, build_with() constructs networks through placeholder activations + set_activation
+    pub static VIA_SET_ACTIVATION: std::cell::Cell<bool> = std::cell::Cell::new(false);
+}
+
 pub fn build_with(spec: &Net, shapes: &[LShape], params: &[P<f32>]) -> Result<Network, String> {
-    let mut net = crate::util::guard(|| libnet::build(spec))?;
+    let via = VIA_SET_ACTIVATION.with(|v| v.get());
+    let mut net = crate::util::guard(|| if via { libnet::build_via_set_activation(spec) } else { libnet::build(spec) })?;
     crate::util::guard(|| libnet::set_params(&mut net, spec, shapes, params))?;
     Ok(net)
 }
